@@ -63,8 +63,10 @@ CLAIMS = {
              'stream / channel / track format section, track UIDs included) is proved by a Hoare-style traversal '
              '(Heap/ReassignFull.v) to change IDs and block IDs only, for every outcome, from every well-formed state. A '
              'successful call keeps the IDs of listed elements unique and the membership lists consistent (every ID it hands '
-             'out goes through set(Id), which refuses an ID in use; Heap/UniqReassign.v) and keeps the labelling of pack / '
-             'channel formats and their blocks (Heap/Labels.v). Which numbers pack, stream, channel, track formats and track '
+             'out goes through set(Id), which refuses an ID in use; Heap/UniqReassign.v), keeps the whole C05 invariant '
+             'including the shape of IDs (Heap/ReassignU.v, a success-only traversal of the complete function with the '
+             'kinds of the calling state and positive counters) and keeps the labelling of pack / channel formats and their '
+             'blocks (Heap/Labels.v). Which numbers pack, stream, channel, track formats and track '
              'UIDs receive, and idempotence, are decided by the differential run.',
         design='8 C14'),
     'C16': dict(
@@ -137,9 +139,9 @@ CLAIMS = {
              'in use throws and changes nothing. Partial in these respects: the model\'s ID fields are unbounded (wrap-around '
              'at the top of the 16/32-bit fields is outside the model, as the property\'s quantifier allows); parsed documents '
              'are covered by C08/C13 and the oracles. The invariant is also carried through the extended calls - block '
-             'additions, copy(), Document::deepCopy, deepCopyTo, updateBlockFormatDurations, tracing (Heap/UniqExt.v) - and '
-             'reassignIds keeps membership consistency and uniqueness (Heap/UniqReassign.v); histories that continue '
-             'after a reassignIds are outside the invariant theorem.',
+             'additions, copy(), Document::deepCopy, deepCopyTo, reassignIds, updateBlockFormatDurations, tracing '
+             '(Heap/UniqExt.v, Heap/ReassignU.v: every ID reassignIds hands out goes through set(Id), which refuses an ID in '
+             'use, and has the shape of its kind because the counters start at 0x1001 and only grow).',
         design='8 C05'),
     'C01': dict(
         technique='Rocq proof over writer/parser tables regenerated from the XML code (name-level agreement, literal values, '
